@@ -439,7 +439,7 @@ static int mode_hash(const std::string &in, const std::string &outp) {
 }
 
 // mode prefetch: warms the oracle table with the strings a verifiable-generator derivation over the box can ask for
-// ("LibTMCG|p|q|ggen|" followed by up to `depth` passed-over candidates 0, 1, p-1).  Only a cache: the spec decides which
+// ("LibTMCG|p|q|ggen|" followed by up to three passed-over candidates 0, 1, p-1).  Only a cache: the spec decides which
 // strings it uses and names every string it misses (mode hash answers those).
 static void prefetch_rec(FILE *out, const std::string &u, mpz_srcptr p, int depth) {
 	Mpz r; tmcg_mpz_shash(r, u); mpz_mod(r, r, p);
@@ -453,7 +453,8 @@ static int mode_prefetch(long maxp, long maxq, const std::string &outp) {
 	for (long p = 3; p <= maxp; p++) for (long q = 2; q <= maxq; q++) {
 		if ((p - 1) % q) continue;
 		Mpz P(p), Q(q);
-		prefetch_rec(out, "LibTMCG|" + b62(P) + "|" + b62(Q) + "|ggen|", P, 2);
+		// a candidate is 1 with probability 1/q: longer chains for the smallest orders
+		prefetch_rec(out, "LibTMCG|" + b62(P) + "|" + b62(Q) + "|ggen|", P, q <= 3 ? 7 : (q <= 7 ? 5 : 3));
 	}
 	fclose(out);
 	return 0;
